@@ -592,10 +592,7 @@ def monitor_pipe_types(ctx):
         j1 = pp.create_junction(net, pn_bar=5, tfluid_k=300)
         j2 = pp.create_junction(net, pn_bar=5, tfluid_k=300)
         for p in pipes:
-            secs = p["raw"]["sector"].split(",")
             avail = p["name"] in net.std_types["pipe"]
-            if (sector in secs or "all" in secs) != avail and not (avail and "heat" in secs and sector == "water"):
-                ctx.note("pipe std type %s sector %s availability in a %s net: %s" % (p["name"], secs, sector, avail))
             if not avail:
                 continue
             idx = pp.create_pipe(net, j1, j2, std_type=p["name"], length_km=0.1)
